@@ -37,7 +37,7 @@ func init() {
 }
 
 var c08fids = []p9p.Fid{0, 1, 2, 3, 7, p9p.NOFID}
-var c08names = []string{"a", "b", "d", "e", "f", "g", "h", "..", "..", "missing", "xmissing", "nilx", ".", "", "a/b", "ofail1", "ofailf1", "kfail1", "rfail1", "iofail1", "sfail1", "onil1", "odfail1", "odnil1", "kfaildir", "wfail1", "wnil1", "new1", "new2"}
+var c08names = []string{"a", "b", "d", "e", "f", "g", "h", "..", "..", "missing", "xmissing", "nilx", ".", "", "a/b", "dappend", "dtmp", "ofail1", "ofailf1", "kfail1", "rfail1", "iofail1", "sfail1", "onil1", "odfail1", "odnil1", "kfaildir", "wfail1", "wnil1", "new1", "new2"}
 var c08create = []string{"new1", "new2", "new3", "a", ".", "..", "", "x/y", "cfail1", "nilent1", "nilfile1", "odfail2", "odnil2", "kfail2", "rfail2", "iofail2"}
 
 type rnd interface{ Intn(int) int }
